@@ -1116,6 +1116,28 @@ def own_guards(db, fn, fl):
             if len(ds) == 1 and ds[0][1] == 'assign' and ds[0][2]['k'] == 'discr':
                 src = fl.place_leaves(ds[0][2]['place'])
                 is_discr = True
+                # an Option produced by a checked lookup: its None-ness is "index within length"
+                dpl = ds[0][2]['place']
+                dd = defs.get(dpl['l'], []) if not dpl['p'] else []
+                # look through `?` (Try::branch) and plain moves
+                for _hop in range(3):
+                    if len(dd) == 1 and dd[0][1] == 'call' and dd[0][2]['f'].get('name') == 'branch' and dd[0][2].get('args'):
+                        p0 = op_place(dd[0][2]['args'][0])
+                        dd = defs.get(p0['l'], []) if p0 is not None and not p0['p'] else []
+                    elif len(dd) == 1 and dd[0][1] == 'assign' and dd[0][2]['k'] == 'use':
+                        p0 = op_place(dd[0][2]['a'])
+                        dd = defs.get(p0['l'], []) if p0 is not None and not p0['p'] else []
+                    else:
+                        break
+                if len(dd) == 1 and dd[0][1] == 'call' and dd[0][2]['f'].get('name') in ('get', 'get_mut', 'checked_sub', 'checked_add',
+                                                                                   'checked_mul', 'split_at_checked', 'first', 'last'):
+                    ct = dd[0][2]
+                    if not db.resolve(ct['f']):
+                        cargs = ct.get('args', [])
+                        for a in cargs[1:]:
+                            src = src | fl.operand_leaves(a)
+                        if cargs and ct['f'].get('name') in ('get', 'get_mut', 'first', 'last', 'split_at_checked'):
+                            src = src | {('len(' + x + ')') for x in fl.operand_leaves(cargs[0]) if is_path_leaf(x) and not x.startswith('len(')}
             else:
                 src = fl.operand_leaves(t['op'])
             vals = sorted(v for v, _ in alive)
@@ -1176,7 +1198,7 @@ def effective_guards(db, path, binding=None, depth=0, stack=(), opaque=None, cov
             if not targets:
                 continue
             propagates = True
-            if cfgmod.ty_is_result(t['dest_ty']) and not t['dest']['p']:
+            if (cfgmod.ty_is_result(t['dest_ty']) or cfgmod.ty_is_option(t['dest_ty'])) and not t['dest']['p']:
                 uses, _ = cfgmod.result_uses(fn, t['dest']['l'], ra)
                 kinds = {u.kind for u in uses}
                 propagates = bool(uses) and not (kinds & {'swallowed', 'escaped'})
